@@ -463,6 +463,12 @@ func (vm *VM) appendSlice(first int8, length int, slice reflect.Value) reflect.V
 			for i, j := 0, ol; i < length; i, j = i+1, j+1 {
 				slice.Index(j).SetString(regs[i])
 			}
+		case reflect.Func, reflect.Interface:
+			// A function is held in a register as a callable and the nil
+			// interface as an invalid value.
+			for i, j := 0, ol; i < length; i, j = i+1, j+1 {
+				vm.getIntoReflectValue(first+int8(i), slice.Index(j), false)
+			}
 		default:
 			regs := vm.regs.general[vm.fp[3]+Addr(first):]
 			for i, j := 0, ol; i < length; i, j = i+1, j+1 {
